@@ -113,6 +113,10 @@ func getSyslSafeName(name string) string {
 	return name
 }
 
+// reservedSyslWords matches the words that the Sysl lexer does not accept as a field name.
+var reservedSyslWords = regexp.MustCompile(
+	"^((?i)as|return|if|for|foreach|until|else|loop|alt|while)$|^(GET|POST|DELETE|PUT|PATCH|OPTIONS|HEAD|TRACE)$")
+
 func getSyslSafeURI(endpoint string) string {
 	endpoint = escapeUnsafeSyslChars(endpoint)
 
